@@ -193,9 +193,14 @@ func c04JoinAccept(c *engine.Case, class string, j jaValue, jt byte, joinEUI [8]
 	}
 	// receiver path: unmarshal, decrypt, validate
 	var q lorawan.PHYPayload
-	if err := q.UnmarshalBinary(wire); err != nil {
+	rxBuf := append([]byte(nil), wire...)
+	if err := q.UnmarshalBinary(rxBuf); err != nil {
 		c.Fail(class+"/decode-error", fmt.Sprintf("encrypted join-accept %x refused: %v", wire, err), nil)
 		return
+	}
+	// the receive buffer is used for the next packet before the join-accept is decrypted
+	for k := range rxBuf {
+		rxBuf[k] ^= 0xA5
 	}
 	if err := q.DecryptJoinAcceptPayload(keyOf(key)); err != nil {
 		c.Fail(class+"/decrypt-error", fmt.Sprintf("DecryptJoinAcceptPayload: %v; %s", err, desc()), nil)
